@@ -13,6 +13,7 @@ pub fn run(ctx: &Ctx) -> Report {
         Plan { fam: "S2", styles: vec![(0, DEFAULT_SECONDARY)], debug: vec![true], stride: 1 },
         Plan { fam: "S3", styles: vec![(0, DEFAULT_SECONDARY)], debug: vec![true], stride: ctx.pick(11, 1) },
         Plan { fam: "F1", styles: vec![(0, DEFAULT_SECONDARY)], debug: vec![true, false], stride: 1 },
+        Plan { fam: "BIG", styles: vec![(0, DEFAULT_SECONDARY)], debug: vec![true, false], stride: 1 },
     ];
     run_plans(ctx, &mut rep, "C23", &plans, &|i| i.accepted && i.labels > 0);
     rep.require(rep.acc.nontrivial > 5_000, "programs with labels were assembled and queried");
